@@ -1008,11 +1008,11 @@ pub fn property() -> Property {
         assumptions: &["bincode streams are read from a slice with bincode's default options (no pre-allocation from untrusted length prefixes beyond serde's cautious size hint)"],
         both_profiles: true,
         subs: vec![
-            sub("serde/roundtrip", 15_000, 400_000, r_strategy, r_run),
+            sub("serde/roundtrip", 30_000, 800_000, r_strategy, r_run),
             sub("serde/roundtrip-at-limit", 60, 400, l_strategy, l_run),
-            sub_isolated("serde/hostile-json", 60_000, 1_500_000, h_strategy, h_run),
-            sub_isolated("serde/hostile-bincode", 80_000, 2_000_000, b_strategy, b_run),
-            sub_isolated("serde/raw-bytes", 40_000, 1_000_000, raw_strategy, raw_run),
+            sub_isolated("serde/hostile-json", 120_000, 3_000_000, h_strategy, h_run),
+            sub_isolated("serde/hostile-bincode", 160_000, 4_000_000, b_strategy, b_run),
+            sub_isolated("serde/raw-bytes", 200_000, 6_000_000, raw_strategy, raw_run),
         ],
     }
 }
